@@ -11,7 +11,7 @@ EXTENDS Naturals, Sequences, FiniteSets, TLC, Json, Functions
 
 CONSTANTS Reps          \* number of repetitions of each configuration
 
-Layouts  == {"module", "module-vendor", "gopath", "gopath-vendor"}   \* how dependencies are resolved
+Layouts  == {"module", "module-vendor", "gopath", "gopath-vendor", "gopath-rootvendor"}   \* how dependencies are resolved (rootvendor: $GOPATH/src/vendor)
 Locs     == {"short", "long/er/nested/path"}                           \* where the checkout lives
 Invokes  == {"dot", "subdir", "dotdotdot", "importpath"}               \* working directory / pattern naming the package
 Company  == {"alone", "with-others"}                                   \* other packages processed in the same invocation
